@@ -1,0 +1,18 @@
+//go:build verif
+
+// Contracts for the deductive verification in /verif (comment-only; compiled code is unaffected).
+package fetcher
+
+//@ spec fetchedByName(f any, path string) any
+//@ spec fetchedByKey(f any, key Bytes) any
+//@ spec walletOf(acc any) any
+
+//@ iface Service.FetchAccount(self, ctx, path)
+//@ flag noalloc
+//@ ensures result2 == nil ==> result0 != nil && result1 != nil && result1 == fetchedByName(self, path) && result0 == walletOf(result1)
+//@ iface Service.FetchAccountByKey(self, ctx, pubKey)
+//@ flag noalloc
+//@ ensures result2 == nil ==> result0 != nil && result1 != nil && result1 == fetchedByKey(self, bytes(pubKey)) && result0 == walletOf(result1)
+//@ iface Service.FetchWallet(self, ctx, path)
+//@ flag noalloc
+//@ ensures result1 == nil ==> result0 != nil
